@@ -28,7 +28,12 @@ def gen_definition(rng, rich=True):
             t.update(w=rng.choice([8, 8, 16, 4, 12, 32]), enc='unsigned' if kind != 'sint' else rng.choice(['signed', 'twosComplement']),
                      order='mostSignificantByteFirst')
             if kind == 'cal':
-                t['default'] = ['poly', [[rng.choice([1.5, -2.0, 10.0]), 0], [rng.choice([0.5, 2.0]), 1]]]
+                if rng.random() < 0.6:
+                    t['default'] = ['poly', [[rng.choice([1.5, -2.0, 10.0]), 0], [rng.choice([0.5, 2.0]), 1]]]
+                if rng.random() < 0.6:
+                    # context calibrators whose criteria overlap (the FIRST matching one applies)
+                    t['ctx'] = [[[['MODE', rng.choice(['>=', '==', '<=']), str(rng.randint(0, 2)), rng.choice([True, False])]],
+                                 ['poly', [[float(10 ** (j + 1)), 0], [1.0, 1]]]] for j in range(rng.randint(1, 3))]
             t['kind'] = 'int'
         elif kind == 'float':
             t.update(w=rng.choice([32, 64, 16]), enc='IEEE754', order=rng.choice(['mostSignificantByteFirst', 'leastSignificantByteFirst']))
